@@ -218,13 +218,13 @@ func decodeTwoRegistersAndTwoImmediates(instructionCode []byte, pc ProgramCounte
 	lY := min(4, satSub(skipLength, lX+2))
 
 	vXData := codeSlice(instructionCode, pc+3, pc+3+lX)
-	vX, _, err := ReadUintFixed(vXData, len(vXData))
+	vX, _, err := ReadUintSignExtended(vXData, len(vXData))
 	if err != nil {
 		return 0, 0, 0, 0, err
 	}
 
 	vYData := codeSlice(instructionCode, pc+3+lX, pc+3+lX+lY)
-	vY, _, err := ReadUintFixed(vYData, len(vYData))
+	vY, _, err := ReadUintSignExtended(vYData, len(vYData))
 	if err != nil {
 		return 0, 0, 0, 0, err
 	}
